@@ -79,7 +79,7 @@ async fn main() {
             Ok(res) => {
                 let apps = res.as_ref().map(|ev| ev.iter().filter(|e| matches!(e, p2panda_spaces::Event::Application { .. })).count()).unwrap_or(0);
                 if early + apps > 1 && reported.insert("buffered-application-message-delivered-more-than-once".to_string()) {
-                    rp_core::report(true, "buffered-application-message-delivered-more-than-once", inp, json!({"application_events_at_welcome": apps, "application_events_before": early, "result_ok": res.is_ok()}), &["idempotence (not under contract)"]);
+                    rp_core::report(true, "buffered-application-message-delivered-more-than-once", inp, json!({"application_events_at_welcome": apps, "application_events_before": early, "result_ok": res.is_ok()}), &["space_handlers::Space::handle_application_message.ensures#message_processed_before_changes_nothing_and_emits_nothing", "space_handlers::Space::handle_application_message.ensures#processed_message_is_recorded_so_that_a_second_delivery_is_ignored", "space_handlers::Space::handle_application_message.safety"]);
                 }
             }
         }
@@ -103,7 +103,7 @@ async fn main() {
         }
         let again = per_call[1..].iter().any(|c| c != "0 event(s)" && !c.starts_with("error"));
         if again && reported.insert("application-message-processed-again-emits-events-again".to_string()) {
-            rp_core::report(true, "application-message-processed-again-emits-events-again", json!({"sequence": ["space created with bob as reader", "bob processes one application message 3 times"]}), json!({"per_call": per_call}), &["idempotence (not under contract)"]);
+            rp_core::report(true, "application-message-processed-again-emits-events-again", json!({"sequence": ["space created with bob as reader", "bob processes one application message 3 times"]}), json!({"per_call": per_call}), &["space_handlers::Space::handle_application_message.ensures#message_processed_before_changes_nothing_and_emits_nothing", "space_handlers::Space::handle_application_message.ensures#processed_message_is_recorded_so_that_a_second_delivery_is_ignored", "space_handlers::Space::handle_application_message.safety"]);
         }
     }
     println!("{}", json!({"summary": true, "evaluations": n, "distinct_nontrivial": n, "exhaustive": false,
